@@ -115,6 +115,9 @@ func (c *ReplayCache) IsDuplicate(data []byte, tag string) bool {
 		c.current[signature] = tag
 	}
 	if existingTag, ok := c.previous[signature]; ok {
+		// Keep the tag of the first sender, so a replay from another
+		// address can't become the owner of this signature.
+		c.current[signature] = existingTag
 		if existingTag == EmptyTag || tag == EmptyTag {
 			return true
 		}
